@@ -1101,3 +1101,32 @@ t3 :- grow, atom_chars(P, "early_long_predicate_name"), G =.. [P, R], ( catch(G,
 """
     cases = [("t1", "same"), ("t2", "same"), ("t3", "called")]
     return run_cases(prog, cases, {"model": viol}, "C21", "atom_table_growth")
+
+
+# ---------------------------------------------------------------- C06 (clause look-ahead)
+def replay_lookahead(viol):
+    """predicates whose later clauses have list / string / structure / constant first arguments, called
+    with the argument in every run-time representation: all matching clauses must be found"""
+    prog = """
+:- use_module(library(lists)).
+show(X) :- write(X), nl.
+s("abc",1). s("abd",2). s(foo,3). s("abd",4). s([a,b,d],5).
+u(_,0). u("abd",1). u([x|_],2). u(f(_),3). u(g(1),4). u(7,5).
+explode([], []).
+explode([C|Cs], [C|Ds]) :- explode(Cs, Ds).
+"""
+    cases = [("append([a,b],[d],L), findall(R, s(L,R), Rs), show(Rs)", "[2,4,5]"),
+             ("findall(R, s(\"abd\",R), Rs), show(Rs)", "[2,4,5]"),
+             ("explode(\"abc\", L), findall(R, s(L,R), Rs), show(Rs)", "[1]"),
+             ("findall(R, s(foo,R), Rs), show(Rs)", "[3]"),
+             ("append([a,b],[d],L), findall(R, u(L,R), Rs), show(Rs)", "[0,1]"),
+             ("findall(R, u(\"abd\",R), Rs), show(Rs)", "[0,1]"),
+             ("reverse([d,b,a], L), findall(R, u(L,R), Rs), show(Rs)", "[0,1]"),
+             ("findall(R, u([x,y],R), Rs), show(Rs)", "[0,2]"),
+             ("findall(R, u(\"xy\",R), Rs), show(Rs)", "[0,2]"),
+             ("findall(R, u(f(a),R), Rs), show(Rs)", "[0,3]"),
+             ("findall(R, u(g(1),R), Rs), show(Rs)", "[0,4]"),
+             ("findall(R, u(g(2),R), Rs), show(Rs)", "[0]"),
+             ("Y is 2^60-2^60+7, findall(R, u(Y,R), Rs), show(Rs)", "[0,5]"),
+             ("findall(R, u(_,R), Rs), show(Rs)", "[0,1,2,3,4,5]")]
+    return run_cases(prog, cases, {"model": viol}, "C06", "lookahead", batch=True)
